@@ -31,6 +31,7 @@ const prelude = `(set-option :print-success false)
 (declare-const str!empty Str)
 (assert (forall ((a Int) (i Int)) (! (and (= (el_arr (el a i)) a) (= (el_idx (el a i)) i) (= (rkind (el a i)) 1)) :pattern ((el a i)))))
 (assert (= (rkind 0) 0))
+(assert (forall ((x Int)) (! (=> (= (rkind x) 1) (= x (el (el_arr x) (el_idx x)))) :pattern ((el_arr x)))))
 (assert (forall ((a Int) (i Int)) (! (= (rroot (el a i)) (rroot a)) :pattern ((el a i)))))
 (assert (forall ((x Int)) (! (=> (= (rkind x) 0) (= (rroot x) x)) :pattern ((rroot x)))))
 (assert (forall ((s Str)) (! (>= (s_len s) 0) :pattern ((s_len s)))))
